@@ -14,24 +14,32 @@ import sys
 import vlib
 
 META = {
-    "technique": "TLC exhaustive on spec/peers/PeerPool.tla (fine-grained, both mutexes explicit, deadlock check on; "
-                 "atomic-method variant) and spec/peers/PeerManager.tla; behaviour replay of the models' state graphs on "
-                 "the real pool/timedQueue (mock clock) and Manager (mocknet host, real connection gater); TLC "
-                 "counterexamples of the model variants without the fixes forced on the real code with lock gates; "
-                 "trace validation of concurrent runs against PeerPool.tla (PoolTrace.tla)",
-    "level_text": "model_checking: all interleavings of the bounded models (2-3 callers, 2-3 peers, timer goroutines, "
-                  "clock) satisfy deadlock freedom, CountExact, OnlyActiveOffered, NoEarlyReturn, list/status consistency, "
-                  "NotPromotedBeforeConfirmed, BlacklistedNeverOffered (and WaitersWoken / CancelHonoured in the thorough "
-                  "tier); the real code is shown to follow the models transition by transition on sampled (quick) or all "
-                  "(thorough) edges of the atomic state graphs and on recorded concurrent runs, with property monitors on "
-                  "the real behaviour.",
+    "technique": "TLC exhaustive on spec/peers/PeerPool.tla (fine-grained steps delimited by the lock operations, both mutexes "
+                 "explicit, TLC deadlock check on; atomic-method variant; liveness under weak fairness in the thorough tier) and "
+                 "spec/peers/PeerManager.tla. Binding: (B2) the atomic-method state graphs are replayed transition by transition "
+                 "on the real pool/timedQueue with a mock clock and gates, simulated manager behaviours on the real Manager "
+                 "(mocknet host, real shrex-sub, real connection gater); (B1) seeded concurrent stress of the pool and random "
+                 "walks on the Manager are recorded through the verif hooks and validated by TLC against PoolTrace.tla / "
+                 "ManagerTrace.tla; TLC's counterexamples of the model variants WITHOUT the four fixes (ABBA deadlock, early "
+                 "return after cool-down/remove/add/cool-down, black-listed peer promoted and offered, unlocked read in cleanUp) "
+                 "are forced on the real code (lock gates, goroutine-dump proof for the deadlock).",
+    "level_text": "model_checking: every interleaving of the bounded models (2-3 callers x 2-3 operations, 1-3 peers, timer "
+                  "goroutines, clock; manager with 1-2 peers, 2 hashes) is free of deadlock and satisfies CountExact, "
+                  "OnlyActiveOffered, NoEarlyReturn, list/status consistency, CooldownNotLost, NotPromotedBeforeConfirmed, "
+                  "BlacklistedNeverOffered and the GC rules (thorough: also WaitersWoken, CancelHonoured, AllReturn); the real "
+                  "code follows the models on every replayed transition and every recorded concurrent execution (lock "
+                  "structure included), and monitors evaluate the property on the observed behaviour of the real code.",
     "level_note": "Interpretation (under-demanding): removing a peer ends its cool-down obligation (remove followed by add makes "
                   "the peer available at once); a cool-down runs from the moment the queue entry is created. Round-robin "
-                  "order is not demanded: a different order is conformance drift (exit 2), not a violation. 'Blacklisted' = "
-                  "blocked in the connection gater, only with EnableBlackListing. Time is a mock clock in 1 s ticks; the "
-                  "manager's pool age is set through a verif accessor. Lock discipline (a marked read of a pool's list "
-                  "outside that pool's mutex) is reported as a violation because every guarantee of the property is "
-                  "established under that mutex. Small-scope: 2-3 threads, 2-3 peers, 2 hashes.",
+                  "order, lazy-cleanup timing and the hasPeer flag are not demanded: differences are conformance drift "
+                  "(exit 2), not violations. 'Black-listed' = blocked in the connection gater, only with EnableBlackListing. "
+                  "Time is a mock clock in 1 s ticks (a timer's function starts in its own goroutine at or after its "
+                  "deadline); the manager's pool age is set through a verif accessor and one GC iteration is run through "
+                  "VerifGCOnce. Lock discipline (a marked read of a pool's list outside that pool's mutex) is reported as a "
+                  "violation because every guarantee of the property is established under that mutex. Go's writer "
+                  "preference of RWMutex is not modelled (no thread acquires anything while holding the read lock). "
+                  "Quick tier replays a seeded sample of the atomic graph's edges (all edges of the two-caller wake-up "
+                  "graph); small scope: 2-4 threads, 1-3 peers, 2-3 hashes.",
     "design_ref": "DESIGN.md §5 C17, §6 #14 #15",
 }
 
